@@ -333,3 +333,75 @@ def run_notifyguard(prog, ctx=None):
                    "" if bad is None else "the end-of-life call `%s` is made only when `%s` lets it: the test of %s.%s skips the notification of handlers for which that member is zero" % (
                        norm(show(e, f))[:60], norm(show(bad[1], f))[:60], base, bad[0]["f"]))
     return res
+
+
+def run_scanall(prog, ctx=None):
+    """SCANALL: tables of handler slots have holes (an unregistered handler leaves an empty slot in front of live ones), so a
+    loop that walks the slots is not left because the slot it looks at is empty - unless that empty slot is what the function
+    is looking for (the exit returns it, or stores into it).  A search that stops at the first hole does not see the handlers
+    behind it: their events go to the fallback and a second registration for their id is accepted."""
+    from .rules_path import natural_loops
+    res = Result("SCANALL")
+    SLOT_RECORDS.clear()
+    SLOT_RECORDS.update(slot_records(prog))
+    files = set(ctx.get("files", [])) if ctx else None
+    for f in funcs_of(prog, files):
+        loops = natural_loops(f)
+        if not loops:
+            continue
+        for hd, body in sorted(loops.items()):
+            # a loop over slots: it reads the cmd member of a slot record
+            reads = False
+            for bid in body:
+                for e in f.blocks[bid].el:
+                    for n in walk(e):
+                        if _is_cmd_mem(n):
+                            reads = True
+            if not reads:
+                continue
+            bad = None
+            for bid in sorted(body):
+                blk = f.blocks[bid]
+                if not (blk.term and blk.term.get("cond") is not None and len(blk.succ) == 2):
+                    continue
+                cs = strip(blk.term["cond"], all_casts=True)
+                if blk.term.get("cls") == "BinaryOperator":
+                    if cs.get("k") == "bin" and cs.get("op") in ("&&", "||"):
+                        cs = strip(cs["a"], all_casts=True)
+                else:
+                    while cs.get("k") == "bin" and cs.get("op") in ("&&", "||"):
+                        cs = strip(cs["b"], all_casts=True)
+                neg = False
+                while True:
+                    if cs.get("k") == "un" and cs.get("op") == "!":
+                        neg = not neg
+                        cs = strip(cs["e"], all_casts=True)
+                    elif cs.get("k") == "bin" and cs.get("op") in ("==", "!=") and cval(cs["b"]) == 0:
+                        if cs["op"] == "==":
+                            neg = not neg
+                        cs = strip(cs["a"], all_casts=True)
+                    else:
+                        break
+                if not _is_cmd_mem(cs):
+                    continue
+                null_edge = blk.succ[0] if neg else blk.succ[1]
+                if null_edge is None or null_edge in body:
+                    continue
+                # the walk ends on an empty slot: fine where the empty slot is the result
+                slot = _base_text(f, cs)
+                delivered = False
+                for b2 in f.reachable_from(null_edge):
+                    for e in f.blocks[b2].el:
+                        if e.get("k") == "ret" and e.get("e") is not None and cval(e["e"]) is None:
+                            delivered = True
+                        for n in walk_own(e):
+                            if n.get("k") == "bin" and n.get("op") == "=":
+                                l = strip(n["a"], lvalue_to_rvalue=False)
+                                if l.get("k") == "mem" and l.get("rec", "") in SLOT_RECORDS:
+                                    delivered = True
+                if not delivered:
+                    bad = (blk, cs)
+            res.ob("%s:slot walk ends on no hole" % f.qn, bad is None, f,
+                   (bad[1].get("l") if bad else f.blocks[hd].term.get("l") if f.blocks[hd].term else f.line) or f.line,
+                   "" if bad is None else "the walk over the handler slots is left because `%s` is empty and nothing is done with that slot: live handlers behind a hole are not seen" % norm(show(bad[1], f)))
+    return res
